@@ -54,7 +54,7 @@ structure OutMsg where
   kind : String          -- 35
   seq : Int              -- 34
   f : Fields             -- further fields
-  deriving Repr, Inhabited, BEq
+  deriving Repr, Inhabited, BEq, DecidableEq
 
 def isAdminKind (k : String) : Bool :=
   k == "0" || k == "A" || k == "1" || k == "2" || k == "3" || k == "4" || k == "5"
@@ -149,7 +149,7 @@ inductive Obs
   | closed
   -- mutations of the message store, in their order relative to everything else
   | reset | saved (seq : Int) (kind : String) (resendable : Bool) | incS | incT | setT (n : Int) | refresh
-  deriving Repr, Inhabited
+  deriving Repr, Inhabited, DecidableEq, BEq
 
 structure Sess where
   cfg : Cfg
@@ -167,6 +167,20 @@ structure Sess where
   deriving Inhabited
 
 def Sess.emit (s : Sess) (o : Obs) : Sess := { s with log := o :: s.log }
+
+/-! named field updates (keeps unfolded terms small in proofs) -/
+def Sess.setToSend (s : Sess) (q : List OutMsg) : Sess := { s with toSend := q }
+def Sess.setSt (s : Sess) (st : SState) : Sess := { s with st := st }
+def Sess.setOut (s : Sess) (b : Bool) : Sess := { s with out := b }
+def Sess.setInbox (s : Sess) (ib : List InMsg) : Sess := { s with inbox := ib }
+def Sess.closeInbox (s : Sess) : Sess := { s with inboxOpen := false, inbox := [] }
+def Sess.setSentReset (s : Sess) (b : Bool) : Sess := { s with sentReset := b }
+def Sess.setPendingStop (s : Sess) : Sess := { s with pendingStop := true }
+def Sess.setStopped (s : Sess) : Sess := { s with stopped := true }
+def Sess.setHb (s : Sess) (h : Int) : Sess := { s with hb := h }
+def Sess.setTarget (s : Sess) (n : Int) : Sess := { s with store := { s.store with target := n } }
+def Sess.clearLog (s : Sess) : Sess := { s with log := [] }
+def Sess.openConn (s : Sess) : Sess := { s with out := true, inboxOpen := true, inbox := [], sentReset := false }
 
 /-- store mutations are observed (the harness wraps the real store) -/
 def Sess.storeReset (s : Sess) : Sess := { s with store := s.store.reset }.emit .reset
@@ -192,7 +206,7 @@ def prep (s : Sess) (m : OutMsg) : Option OutMsg Ã— Sess :=
   if isAdminKind m.kind then
     let (s, seq) :=
       if m.kind == "A" && m.f.get? 141 == some "Y" then
-        let s := { s.storeReset with sentReset := true }
+        let s := s.storeReset.setSentReset true
         (s, s.store.sender)
       else (s, seq)
     let m := { m with seq := seq }
@@ -206,25 +220,25 @@ def prep (s : Sess) (m : OutMsg) : Option OutMsg Ã— Sess :=
 def queueForSend (s : Sess) (m : OutMsg) : Sess :=
   match prep s m with
   | (none, s) => s
-  | (some m, s) => { s with toSend := s.toSend ++ [m] }
+  | (some m, s) => s.setToSend (s.toSend ++ [m])
 
 def sendInReplyTo (s : Sess) (m : OutMsg) : Sess :=
   if !s.st.loggedOn then queueForSend s m
   else match prep s m with
     | (none, s) => s
-    | (some m, s) => sendQueued { s with toSend := s.toSend ++ [m] }
+    | (some m, s) => sendQueued (s.setToSend (s.toSend ++ [m]))
 
 def dropAndSend (s : Sess) (m : OutMsg) : Sess :=
   match prep s m with
   | (none, s) => s
-  | (some m, s) => sendQueued { s with toSend := [m] }
+  | (some m, s) => sendQueued (s.setToSend [m])
 
 /-- EnqueueBytesAndSend (after `fix:` 7049454: not logged on â‡’ the queued first-time messages are dropped first) -/
 def enqueueAndSend (s : Sess) (m : OutMsg) : Sess :=
-  let s := if !s.st.loggedOn then { s with toSend := [] } else s
-  sendQueued { s with toSend := s.toSend ++ [m] }
+  let s := if !s.st.loggedOn then s.setToSend [] else s
+  sendQueued (s.setToSend (s.toSend ++ [m]))
 
-def dropAndReset (s : Sess) : Sess := { s with toSend := [] }.storeReset
+def dropAndReset (s : Sess) : Sess := (s.setToSend []).storeReset
 
 def mkOut (kind : String) (f : Fields) : OutMsg := { kind := kind, seq := 0, f := f }
 
@@ -372,7 +386,7 @@ def verifySelect (s : Sess) (m : InMsg) (tooHigh tooLow appImpl : Bool) : Sess Ã
 
 /-! ## in-session handlers (in_session.go) -/
 
-def incrTarget (s : Sess) : Sess := { s with store := { s.store with target := s.store.target + 1 } }.emit .incT
+def incrTarget (s : Sess) : Sess := (s.setTarget (s.store.target + 1)).emit .incT
 
 def stashInsert (st : List (Int Ã— InMsg)) (n : Int) (m : InMsg) : List (Int Ã— InMsg) :=
   (n, m) :: st.filter (Â·.1 != n)
@@ -465,7 +479,7 @@ def handleSequenceReset (s : Sess) (m : InMsg) : Sess Ã— SState :=
     | (s, none) =>
       match getInt m 36 with
       | .val n =>
-        if n > s.store.target then ({ s with store := { s.store with target := n } }.emit (.setT n), .inSession)
+        if n > s.store.target then ((s.setTarget n).emit (.setT n), .inSession)
         else if n < s.store.target then (doReject s m 5 none false, .inSession)
         else (s, .inSession)
       | _ => (s, .inSession)
@@ -491,31 +505,33 @@ def handleResendRequest (s : Sess) (m : InMsg) : Sess Ã— SState :=
 inductive LogonErr | rej (r : Rej) | other
   deriving Repr, Inhabited
 
+/-- the acceptor's part of handleLogon: adopt the peer's HeartBtInt unless overridden, reply with a Logon -/
+def logonReply (s : Sess) (m : InMsg) (flag : Bool) : Sess :=
+  if !s.cfg.initiator then
+    let s := if !s.cfg.hbOverride then (match getInt m 108 with | .val h => s.setHb h | _ => s) else s
+    sendLogonInReplyTo s flag
+  else s
+
+/-- the end of handleLogon: arm the peer timer, notify, gap check, consume the Logon's number -/
+def logonFinish (s : Sess) (m : InMsg) : Sess Ã— Option LogonErr :=
+  let s := ((s.setSentReset false).emit (.armPeer (1200 * s.hb))).emit .onLogon
+  match checkTooHigh s m with
+  | some r => (s, some (.rej r))
+  | none => (incrTarget s, none)
+
+def logonResetFlag (m : InMsg) : Bool := match getBool m 141 with | .val b => b | _ => false
+
 def handleLogon (s : Sess) (m : InMsg) : Sess Ã— Option LogonErr :=
   if s.cfg.bs == 5 && !(m.f.has 1137) then (s, some .other) else
-  let resetStore := if s.cfg.initiator then false else s.cfg.resetOnLogon
   let s := if !s.cfg.initiator && s.cfg.refreshOnLogon then s.emit .refresh else s
   match verifyAppImpl s m with
   | (s, some r) => (s, some (.rej r))
   | (s, none) =>
-    let flag := match getBool m 141 with | .val b => b | _ => false
-    let resetStore := resetStore || (flag && !s.sentReset)
+    let resetStore := (if s.cfg.initiator then false else s.cfg.resetOnLogon) || (logonResetFlag m && !s.sentReset)
     let s := if resetStore then s.storeReset else s
     match verifySelect s m false true false with
     | (s, some r) => (s, some (.rej r))
-    | (s, none) =>
-      let s :=
-        if !s.cfg.initiator then
-          let s := if !s.cfg.hbOverride then
-                     (match getInt m 108 with | .val h => { s with hb := h } | _ => s) else s
-          sendLogonInReplyTo s flag
-        else s
-      let s := { s with sentReset := false }
-      let s := s.emit (.armPeer (1200 * s.hb))
-      let s := s.emit .onLogon
-      match checkTooHigh s m with
-      | some r => (s, some (.rej r))
-      | none => (incrTarget s, none)
+    | (s, none) => logonFinish (logonReply s m (logonResetFlag m)) m
 
 def inSessionFixMsgIn (s : Sess) (m : InMsg) : Sess Ã— SState :=
   let k := kindOf m
@@ -597,29 +613,27 @@ def fixMsgInCore (s : Sess) (m : InMsg) : Sess Ã— SState :=
 
 /-! ## state changes (session_state.go) -/
 
+/-- handleDisconnectState between the two drains: logout notification, onDisconnect's reset and close -/
+def discMid (s : Sess) : Sess :=
+  let doOnLogout := s.st.loggedOn || (match s.st with | .logout => true | .logon => s.cfg.initiator | _ => false)
+  let s := if doOnLogout then s.emit .onLogout else s
+  let s := if s.cfg.resetOnDisconnect then dropAndReset s else s
+  if s.out then (s.setOut false).emit .closed else s
+
 mutual
-/-- setState with handleDisconnectState / onDisconnect (which drains the inbound channel through the OLD state) -/
+/-- setState with handleDisconnectState / onDisconnect.  After `fix:` 69a603a the buffered inbound messages are
+    processed first, through the still-current state and with the connection still in place (a nested disconnect
+    finishes the job); then the logout notification, reset-on-disconnect, close; the second drain is what is left
+    of the original one. -/
 def setState (fuel : Nat) (s : Sess) (next : SState) : Sess :=
   match fuel with
-  | 0 => { s with st := next }
+  | 0 => s.setSt next
   | fuel + 1 =>
     if !next.connected then
-      let s :=
-        if s.st.connected then
-          -- handleDisconnectState (after `fix:` 69a603a): buffered inbound messages are processed first, through the
-          -- still-current state and with the connection still in place; a nested disconnect finishes the job
-          let s := drainIn fuel s
-          let doOnLogout := s.st.loggedOn || (match s.st with | .logout => true | .logon => s.cfg.initiator | _ => false)
-          let s := if doOnLogout then s.emit .onLogout else s
-          -- onDisconnect
-          let s := if s.cfg.resetOnDisconnect then dropAndReset s else s
-          let s := if s.out then { s with out := false }.emit .closed else s
-          let s := drainIn fuel s
-          { s with inboxOpen := false, inbox := [] }
-        else s
-      let s := if s.pendingStop then { s with stopped := true } else s
-      { s with st := next }
-    else { s with st := next }
+      let s := if s.st.connected then (drainIn fuel (discMid (drainIn fuel s))).closeInbox else s
+      let s := if s.pendingStop then s.setStopped else s
+      s.setSt next
+    else s.setSt next
 
 def drainIn (fuel : Nat) (s : Sess) : Sess :=
   match fuel with
@@ -628,7 +642,7 @@ def drainIn (fuel : Nat) (s : Sess) : Sess :=
     if !s.inboxOpen then s else
     match s.inbox with
     | [] => s
-    | m :: rest => drainIn fuel (incoming fuel { s with inbox := rest } (some m))
+    | m :: rest => drainIn fuel (incoming fuel (s.setInbox rest) (some m))
 
 /-- stateMachine.Incoming; `none` = bytes that do not parse -/
 def incoming (fuel : Nat) (s : Sess) (m : Option InMsg) : Sess :=
@@ -705,13 +719,13 @@ def connect (s : Sess) : Sess Ã— String :=
     let s := if s.cfg.resetOnDisconnect then dropAndReset s else s
     (s, "nottime")
   else
-    let s := { s with out := true, inboxOpen := true, inbox := [], sentReset := false }
-    if !s.cfg.initiator then ({ s with st := .logon }, "ok")
+    let s := s.openConn
+    if !s.cfg.initiator then (s.setSt .logon, "ok")
     else
       let s := if s.cfg.refreshOnLogon then s.emit .refresh else s
       let s := if s.cfg.resetOnLogon then s.storeReset else s
       let s := sendLogonInReplyTo s (shouldSendReset s)
-      ({ s with st := .logon }, "ok")
+      (s.setSt .logon, "ok")
 
 def stopNext (s : Sess) : Sess Ã— SState :=
   match s.st with
@@ -719,37 +733,39 @@ def stopNext (s : Sess) : Sess Ã— SState :=
   | .logon => (s, .latent)
   | st => (s, st)
 
-/-- one event; returns the new state, the observations in order, and a status word for the op -/
-def step (s : Sess) (e : Ev) : Sess Ã— List Obs Ã— String :=
-  let s := { s with log := [] }
+/-- one event on a session whose observation log is empty: new state (log = observations, newest first) and a status word -/
+def stepCore (s : Sess) (e : Ev) : Sess Ã— String :=
   let fuel := fuelOf s
-  let (s, status) : Sess Ã— String :=
     match e with
     | .connect => connect s
     | .incomingMsg m => (incoming fuel s m, "ok")
-    | .arrive m => if s.inboxOpen then ({ s with inbox := s.inbox ++ [m] }, "ok") else (s, "noconn")
+    | .arrive m => if s.inboxOpen then (s.setInbox (s.inbox ++ [m]), "ok") else (s, "noconn")
     | .pop =>
       if !s.inboxOpen then (s, "none") else
       (match s.inbox with
        | [] => (s, "none")
-       | m :: rest => (incoming fuel { s with inbox := rest } (some m), "ok"))
+       | m :: rest => (incoming fuel (s.setInbox rest) (some m), "ok"))
     | .timeout ev =>
       let s := checkSessionTime fuel s true true
       let (s, nx) := timeoutCore s ev
       (setState fuel s nx, "ok")
     | .disconnected => ((if s.st.connected then setState fuel s .latent else s), "ok")
     | .stop =>
-      let s := { s with pendingStop := true }
+      let s := s.setPendingStop
       let (s, nx) := stopNext s
       (setState fuel s nx, "ok")
     | .send m => (match prep s m with
         | (none, s) => (s, "refused")
-        | (some m, s) => ({ s with toSend := s.toSend ++ [m] }, "ok"))
+        | (some m, s) => (s.setToSend (s.toSend ++ [m]), "ok"))
     | .flush =>
       let s := checkSessionTime fuel s true true
-      ((if s.st.loggedOn then sendQueued s else { s with toSend := [] }), "ok")
+      ((if s.st.loggedOn then sendQueued s else s.setToSend []), "ok")
     | .sessionTime r sm => (checkSessionTime fuel s r sm, "ok")
-  ({ s with log := [] }, s.log.reverse, status)
+
+/-- one event; returns the new state, the observations in order, and a status word for the op -/
+def step (s : Sess) (e : Ev) : Sess Ã— List Obs Ã— String :=
+  let r := stepCore s.clearLog e
+  (r.1.clearLog, r.1.log.reverse, r.2)
 
 def initSess (cfg : Cfg) (sender target : Int) : Sess :=
   { cfg := cfg, store := { sender := sender, target := target },
